@@ -1,15 +1,16 @@
 SPECIFICATION Spec
 CONSTANTS
   U = "quick"
-  Kind = "obj"
+  Kind = "list2"
   InitPartial = FALSE
   Mirror = FALSE
-  MaxLevel = 40
-  Small = FALSE
+  MaxLevel = 2
+  Small = TRUE
   Avoid = FALSE
-  SimK = 1
-  Acts = {"dset", "oset", "rebind", "ddel", "batch", "lset", "ldel", "slice", "lins", "inplace", "xslice"}
+  SimK = 0
+  Acts = {"xslice", "slice", "ldel"}
 CONSTRAINT LevelBound
+VIEW view
 INVARIANT Conforms
 INVARIANT AltsConform
 PROPERTY RejectedWriteNoStore
